@@ -351,3 +351,5 @@ func vfFileID(p string) uint64 {
 }
 
 var sattrNone = xdrw.Sattr3{}
+
+type rfcRes = rfc.Res
